@@ -82,7 +82,11 @@ func streamLenSweep(c *Ctx, prop string, shapes []string, fl Flags) {
 	soloHead, okH, _ := redactLine(slHead)
 	soloTail, okT, _ := redactLine(slTail)
 	if !okH || !okT {
-		c.HarnessError("stream length sweep: head / tail line rejected")
+		// both are plain command lines: only state left behind by earlier input can make the tool refuse them
+		if prop == "C06" {
+			c.Violate("stream-length:valid-line-rejected", "an ordinary command line is rejected in-process after other input has been handled (on its own it is accepted): the result for a line depends on what was processed before", 0,
+				map[string]any{"kind": "stream-length", "line": slHead}, nil)
+		}
 		return
 	}
 	for _, sh := range slShapes {
@@ -113,8 +117,10 @@ func streamLenSweep(c *Ctx, prop string, shapes []string, fl Flags) {
 				continue
 			}
 			if !okS {
-				c.HarnessError("stream length sweep: shape %s L=%d rejected in-process", sh.name, L)
-				return
+				if prop == "C06" {
+					c.Violate("stream-length:valid-line-rejected", fmt.Sprintf("a well-formed %d-byte command line (%s) is rejected in-process", L, sh.name), int64(L), map[string]any{"kind": "stream-length", "shape": sh.name, "length": L}, nil)
+				}
+				continue
 			}
 			chans := []string{"reader"}
 			if L%512 <= 2 || L%512 >= 510 || L%97 == 0 {
